@@ -519,4 +519,4 @@ CONTRACTS += [_mk_bib(c) for c in range(6)]
 # --- filtered BAM tables are written from the selected / compacted records (contracts proved for C04)
 from contracts import clone_for as _clone      # noqa: E402
 from contracts import c04 as _c04               # noqa: E402
-CONTRACTS += [_clone(_c04.bam_getitem, "C16"), _clone(_c04.bam_make_contiguous, "C16"), _clone(_c04.bam_make_contiguous_memo, "C16")]
+CONTRACTS += [_clone(_c04.bam_getitem, "C16"), _clone(_c04.bam_make_contiguous, "C16"), _clone(_c04.bam_make_contiguous_memo, "C16")] + [_clone(c, "C16") for c in _c04.bam_getitem_slice]
